@@ -255,3 +255,29 @@ Theorem C08_notified_below_members : forall B fuel s n e,
 Proof. exact P9V.Refs.NotifiedDeep.in_below. Qed.
 Print Assumptions C08_notified_below_members.
 (* --- end pathB --- *)
+
+(* --- round 5: the atomicity of binding requests with respect to renames --- *)
+From P9V Require Refs.BindSplit.
+(** Every history theorem above is about the SEQUENTIAL model: a request that binds a new File (clone, walk,
+    Tlcreate) runs atomically.  In the code this is Server.renameMu: the backend call that makes the File and
+    the registration of the new fidRef sit in one safelyRead / safelyWrite, a rename takes renameMu for
+    writing.  It is an ASSUMPTION of this file (tested on every run by the gated scenario vhgRenameVsBind:
+    a rename issued while the binding request is parked inside its backend call), made expressible here:
+    [BindSplit.clone_begin] = LookupFID, guards, walkOne(nil); [BindSplit.clone_finish] = the rest, reading
+    the origin's parent and name at that moment.
+    C08_clone_split: run back to back, the two segments ARE the model's zero-name Twalk / Twalkgetattr, for
+    every backend and every state (the split adds no behaviour). *)
+Theorem C08_clone_split : forall B bstep c fid newfid g s,
+  P9V.Refs.BindSplit.clone_seq B bstep c fid newfid g s = step B bstep (OWalk c fid newfid [] g) s.
+Proof. exact P9V.Refs.BindSplit.clone_split_seq. Qed.
+Print Assumptions C08_clone_split.
+
+(** C08_clone_overtaken_refuted: without that atomicity C08_coherent is false.  PathFS, fid 1 on /n1 (inode 2),
+    clone of fid 1 onto fid 2, Trenameat /n1 -> /n3 on a second connection.  Either sequential order: GetAttr
+    through fid 2 answers inode 2.  Rename between the segments: GetAttr through fid 2 answers ENOENT (the object
+    is alive at /n3) and the only File told about the rename is the origin's. *)
+Theorem C08_clone_overtaken_refuted : forall wga g,
+  P9V.Refs.BindSplit.bs_order wga g true = (0, 2) /\ P9V.Refs.BindSplit.bs_order wga g false = (0, 2) /\
+  P9V.Refs.BindSplit.bs_overtaken wga g = ((ENOENT, 0), [BRenamed 1 2 3]).
+Proof. exact P9V.Refs.BindSplit.clone_overtaken_refuted. Qed.
+Print Assumptions C08_clone_overtaken_refuted.
